@@ -118,7 +118,10 @@ GROUPS = {
     },
     "k-dt": {
         "harnesses": [H("checker::kani_k_dt::k_dt_limits_exact", "none (all 11 DataType variants)", complete=True),
-                      H("checker::kani_k_dt::k_dt_all_variants_listed", "none (all index pairs)", complete=True)],
+                      H("checker::kani_k_dt::k_dt_all_variants_listed", "none (all index pairs)", complete=True),
+                      H("checker::kani_k_dt::k_lim_inside_is_accepted", "none (all finite f64 quadruples)", complete=True, timeout=600),
+                      H("checker::kani_k_dt::k_lim_unevaluated_never_errors", "none (all finite f64 pairs)", complete=True, timeout=600),
+                      H("checker::kani_k_dt::k_lim_clearly_below_is_rejected", "none (all finite f64 quadruples with c0 in [1, 1e300], e0 in [0, c0/2])", complete=True, timeout=600)],
     },
     "c17": {"harnesses": c17_harnesses()},
 }
